@@ -10,8 +10,9 @@ import subprocess
 import sys
 import tempfile
 
-pid, name, checks = sys.argv[1], sys.argv[2], sys.argv[3].split(",")
-src = f"/tmp/wt/{pid}.out"
+wt, name, checks = sys.argv[1], sys.argv[2], sys.argv[3].split(",")
+pid = wt.lstrip("N")
+src = f"/tmp/wt/{wt}.out"
 patch = os.path.join(src, "patch.diff")
 demo = os.path.join(src, "demo.py")
 meta = {"property": pid, "name": name, "ran": []}
@@ -58,5 +59,5 @@ try:
 finally:
     shutil.rmtree(clean, ignore_errors=True)
     shutil.rmtree(mut, ignore_errors=True)
-subprocess.run(["git", "-C", "/repo", "worktree", "remove", "--force", f"/tmp/wt/{pid}"])
+subprocess.run(["git", "-C", "/repo", "worktree", "remove", "--force", f"/tmp/wt/{wt}"])
 shutil.rmtree(src, ignore_errors=True)
